@@ -55,6 +55,24 @@ JudgeTab ==
             THEN "a table row differs from the counts"
        ELSE "ok"
 
-Judge == IF Cases[c].kind = "conv" THEN JudgeConv ELSE JudgeTab
+\* print_experiments (beyond the listed properties): "<n> trial sequences found.", then per experiment "Experiment i:"
+\* and one line per trial listing "name value" for every user-declared factor in design order ('' prints as the bare name)
+JudgePrint ==
+    LET cs == Cases[c]
+        ls == SelectSeq(Lines(cs.stdout), LAMBDA ln : Strip(ln) # <<>>)
+        NE == Len(cs.exps)
+        TL(e) == Len(cs.exps[e][cs.order[1]])
+        RECURSIVE Off(_)
+        Off(e) == IF e = 1 THEN 1 ELSE Off(e - 1) + 1 + TL(e - 1)       \* line index before "Experiment e-1:" header
+        ExpCell(n, v) == IF cs.bytes[v] = <<>> THEN <<cs.bytes[n]>> ELSE <<cs.bytes[n], cs.bytes[v]>>
+    IN IF Len(ls) = 0 \/ Tokens(ls[1])[1] # cs.bytes[cs.count] THEN "first line does not give the number of sequences"
+       ELSE IF Len(ls) # (IF NE = 0 THEN 1 ELSE Off(NE) + 1 + TL(NE)) THEN "number of printed lines"
+       ELSE IF \E e \in 1..NE : Tokens(ls[Off(e) + 1]) # <<cs.bytes["Experiment"], cs.bytes[cs.idx[e]]>> THEN "experiment header"
+       ELSE IF \E e \in 1..NE : \E t \in 1..TL(e) :
+                 Cells(ls[Off(e) + 1 + t]) # [k \in 1..Len(cs.order) |-> ExpCell(cs.order[k], cs.exps[e][cs.order[k]][t])]
+            THEN "a printed trial differs from the experiment"
+       ELSE "ok"
+
+Judge == IF Cases[c].kind = "conv" THEN JudgeConv ELSE IF Cases[c].kind = "print" THEN JudgePrint ELSE JudgeTab
 Report == (ph = "judge" /\ Judge # "ok") => PrintT(<<"OUT", c, Judge>>)
 =============================================================================
